@@ -13,6 +13,12 @@ CHECKS = {
     "C02": ("differential monitor on the IfNode evaluation pipeline: gcc -E batch oracle + cexpr reference evaluator (must agree), probes for value and signedness, AST shrinker + mechanism classifier for known findings",
             "Every enumerated expression (operator x boundary-literal grid, all ordered operator pairs, all literal spellings, defined/identifier forms) and random trees are evaluated by the real Lexer/MacroExpander/ExpressionEvaluator and compared with gcc and the reference evaluator; #elif-after-taken cases go through finder.find.",
             "gcc and cexpr agree on all compared cases; undefined-in-C operands and gcc-diagnosed expressions are excluded; listed known findings are genuine defects kept open", "6/C02"),
+    "C03": ("external-oracle monitor: MacroExpander.expand on a recording Platform (macros entered as #define, as -D strings and mixed; H-expand step counter) vs gcc -E -P tokenised by the independent pptok; #if and #include paths; macro/token shrinker + mechanism classifier",
+            "Hand-written hostile corpus (ISO C 6.10.3.5 examples, empty arguments beside ##, rescanning with following source, recursion kinds, 199-deep chains) plus random macro tables from the quantifier's grammar; expansion step bound 1e5.",
+            "gcc 12.2 -E -P is the conforming preprocessor; punctuator runs are exploded before comparison; ## ## and ## # sequences are outside the premise", "6/C03"),
+    "C12": ("reference-model + relational monitor: config._load_compilers / ArgumentParser.parse_args on generated .cbi/config files vs the ccmodel semantics; model-free relations (implicit==explicit, alias==target, repeated and interleaved parses agree); end-to-end passes through load_database + finder.find vs gcc per pass",
+            "Built-in definition files with every documented flag subset for every built-in name, all alias graphs over 4 names, random user configurations x command lines, each command parsed twice and interleaved.",
+            "ccmodel written from the documentation/schema is the reference for generated unambiguous rules; pass/mode contributions compared as multisets", "6/C12"),
     "C04": ("external-oracle monitor: finder.find on generated header forests vs gcc -E markers, -H and -dM run in the source directory; H-platform look-up trace; differential classifiers for the known search-order / redefinition findings",
             "The complete memoisation/search-order space (same header name in every subset of {includer dir, d1, d2}, quote/angle, both orders, every -I/-isystem order) plus random forests with guarded/once/toggle headers, computed includes and -include.",
             "gcc 12.2 search rules; gcc runs in the source file's directory; directive lines follow the C01 rule per file", "6/C04"),
